@@ -73,6 +73,12 @@ Lemma cnth_vmin_zero l r i : cnth (vmin_zero l r) i = cmin_zero (cnth l i) (cnth
 Proof. apply cnth_zipw. reflexivity. Qed.
 Lemma cnth_vmax l r i : cnth (vmax l r) i = cmax i (cnth l i) (cnth r i).
 Proof. apply cnth_zipw. apply cmax_none. Qed.
+Lemma cexc_none j : cexc j None None = None.
+Proof. unfold cexc. rewrite cinc_none. reflexivity. Qed.
+Lemma cnth_vexc l r i : cnth (vexc l r) i = cexc i (cnth l i) (cnth r i).
+Proof. apply cnth_zipw. apply cexc_none. Qed.
+Lemma val0_cexc j l r : val0 (cexc j l r) == val0 (cinc j l r).
+Proof. unfold cexc. destruct (cinc j l r); [reflexivity|]. destruct l; reflexivity. Qed.
 Lemma cnth_vinc l r i : cnth (vinc l r) i = cinc i (cnth l i) (cnth r i).
 Proof. apply cnth_zipw. apply cinc_none. Qed.
 Lemma cnth_vdec l r i : cnth (vdec l r) i = cdec i (cnth l i) (cnth r i).
@@ -320,15 +326,15 @@ Qed.
    a capability dimension that is missing -- or cpu/memory <= 0 -- does not bound *)
 Theorem realcap_def total tg g cap i :
   cnth (real_cap total tg g cap) i =
-  let rc := cadd (cinc i (cnth total i) (cnth tg i)) (cnth g i) in
+  let rc := cadd (cexc i (cnth total i) (cnth tg i)) (cnth g i) in
   match cap with
   | None => rc
   | Some c => cmin_inf rc (cnth (cap_norm c) i)
   end.
 Proof.
   unfold real_cap. destruct cap; cbn zeta.
-  - rewrite cnth_vmin_inf, cnth_vadd, cnth_vinc. reflexivity.
-  - rewrite cnth_vadd, cnth_vinc. reflexivity.
+  - rewrite cnth_vmin_inf, cnth_vadd, cnth_vexc. reflexivity.
+  - rewrite cnth_vadd, cnth_vexc. reflexivity.
 Qed.
 
 Lemma cnth_cap_norm c i :
@@ -348,7 +354,7 @@ Corollary realcap_value total tg g c i t s x y :
             v == qmin (qmax 0 (t - s) + x) y.
 Proof.
   intros Et Es Eg Ec Ht Hs. rewrite realcap_def. cbn zeta. rewrite Et, Es, Eg, Ec.
-  unfold cinc. cbn [val0].
+  unfold cexc, cinc. cbn [val0].
   assert (N1 : Qeq_bool t (-1) = false).
   { destruct (Qeq_bool t (-1)) eqn:E; [|reflexivity]. apply Qeq_bool_iff in E. lra. }
   assert (N2 : Qeq_bool s (-1) = false).
